@@ -130,6 +130,17 @@ func C02_Struct() {
 	block := &stub.Block{H: primitives.BlockHeight(env.NondetU64("block_height")), Tag: env.NondetU8("block_tag"), RefTime: 5}
 	prevBlock := &stub.Block{H: block.H - 1, RefTime: 4}
 
+	// committees change between heights: any other height gets a committee of other members (ids 101..)
+	e.mem.ProofCommittee = func(h primitives.BlockHeight) []interfaces.CommitteeMember {
+		if h == block.H {
+			return e.mem.Committee
+		}
+		alt := make([]interfaces.CommitteeMember, len(e.mem.Committee))
+		for i, m := range e.mem.Committee {
+			alt[i] = interfaces.CommitteeMember{Id: primitives.MemberId{byte(101 + i)}, Weight: m.Weight}
+		}
+		return alt
+	}
 	var err error
 	p := env.Catch(func() {
 		err = e.worker.ValidateBlockConsensus(context.Background(), block, proof, prevBlock, prevProof, soft)
@@ -144,6 +155,9 @@ func C02_Struct() {
 	env.Assert("C02.height", refB.BlockHeight == block.H)
 	env.Assert("C02.commitment", refB.BlockHash[0] == block.Tag)
 	env.Assert("C02.committee_available", !e.mem.FailForProof)
+	for _, r := range e.mem.ProofRequests {
+		env.Assert("C02.committee_of_block_height", env.And(r.Height == block.H, r.RefTime == prevBlock.RefTime))
+	}
 	allValid, allMembers, distinct := true, true, true
 	weight := uint64(0)
 	for j := 0; j < k; j++ {
